@@ -86,6 +86,10 @@ def known_match(known, prop, cfg, op_line, msg, ctx=None):
             continue
         if "cat_not" in m and cfg.cat in m["cat_not"]:
             continue
+        if "cat" in m and cfg.cat not in m["cat"]:
+            continue
+        if "injected_prefix" in m and not ((ctx or {}).get("injected") or "").startswith(m["injected_prefix"]):
+            continue
         if m.get("pos_lt_size"):
             # op line: <op> <container> <pos> ...; the finding only covers insertion strictly before end()
             toks = op_line.lstrip("!0123456789 ").split(" ")
@@ -256,7 +260,7 @@ def run_faults(tier, report, configs=None):
                 size_before = int(h.steps[inj_i - 1].conts[a_idx].split(";")[0]) if inj_i > 0 else 0
             except (IndexError, ValueError):
                 pass
-            km = known_match(known, "C09", cfg, op, msg, {"size": size_before})
+            km = known_match(known, "C09", cfg, op, msg, {"size": size_before, "injected": (h.injected[0] if h.injected else "")})
             if km is not None:
                 report.known_finding("%s: %s" % (km["site"], km["failure"]))
                 continue
